@@ -172,6 +172,9 @@ impl IterableSet {
 
 impl fmt::Display for IterableSet {
     fn fmt(&self, f: &mut fmt::Formatter<'_>) -> fmt::Result {
-        write!(f, "{} in {}", self.var, *self.iterator)
+        match self.iterator.value() {
+            PreExp::FunctionCall(_, fun) => write!(f, "{} in {}", self.var, fun.to_iterator_string()),
+            iterator => write!(f, "{} in {}", self.var, iterator),
+        }
     }
 }
